@@ -13,7 +13,7 @@ def run(ctx):
     q12 = [('stuck', d2, ['bad:c07-wrong-outcome-at-quiescence'])] + [('bad', d2, [b]) for b in bad]
     # waypoints: both transactions committed and not applied (one solver-chosen reachable state, possibly after a stop), then
     # every continuation of 16 steps incl. a process stop anywhere in the two applies
-    way = {'pred': 'reach:w-CC', 'depth': 20, 'seed': {'pred': 'reach:w-C-', 'depth': 20}}
+    way = {'pred': 'reach:w-CC', 'depth': 20, 'seed': {'pred': 'reach:w-C-', 'depth': 20}, 'variants': 1 if quick else 3}
     q12 += [('bad', 16, ['bad:c02-sent-after-a-later-change', 'bad:c02-send-out-of-order', 'bad:c02-applied-but-never-sent'], way),
             ('stuck', 18, ['bad:c07-wrong-outcome-at-quiescence'], way)]
     proto.run(ctx, 'C07', [('1x1c', c11, q11, []), ('1x2c', c12, q12, [])],
